@@ -52,6 +52,8 @@ def classify_common(rec):
         p = (rec.get("compile") or {}).get("panic", {})
         if "name of this column has not been to be set" in p.get("msg", "") and "gen_expr.rs" in p.get("loc", ""):
             return "F29-unnamed-column-panic"
+    if v == "sql-err" and re.search(r"no such column: _expr_\d+", str(rec.get("sqlite"))) and re.search(r" AS _expr_\d+", sql):
+        return "F24-dangling-generated-alias"
     if v == "sql-err" and rec["program"].meta.get("let_at") and re.search(r"no such column: x\d+", str(rec.get("sqlite"))) and re.search(r"p0 AS \(SELECT \*", sql):
         return "F36-let-table-star-loses-derived-name"
     if v == "sql-err" and "join" in kinds and re.search(r"no such column: \w+\._expr_\d+", str(rec.get("sqlite"))) and re.search(r"ORDER BY [^()]*\b\w+\._expr_\d+", sql):
